@@ -5,7 +5,7 @@ From PGV Require Import Extracted.SourceConst.
 From PGV Require Import Model.RuleText Model.Value Model.Clause Model.Rules Model.Walk.
 From PGV Require Import Proofs.RuleContract Proofs.WalkProofs Proofs.WalkProofs2.
 From PGV Require Import Spec.WalkAddr Proofs.WalkAddrProofs.
-From PGV Require Import Base.MiniGo Extracted.SourceFns Model.GoParse Proofs.GoParseProofs.
+From PGV Require Import Base.MiniGo Extracted.SourceFnsParse Model.GoParse Proofs.GoParseProofs.
 
 (* into a struct, through any number of pointer levels, under Parent.Field *)
 Theorem C04_enters_struct : forall rec ivk sn field cus tv si fs b,
